@@ -1,6 +1,8 @@
-Require Import Coq.Strings.String.
+Require Import Coq.Strings.String Net.Concrete.
+Require Import Props.C04.
 Require Import Base.Bytes Wire.Layout Wire.Customs Wire.LayoutProofs Wire.CustomProofs Wire.Packet Wire.PacketProofs.
-Require Import Gen.Packets Net.Frame Net.FrameProofs Props.C04.
+Require Import Gen.Packets Net.Frame Net.FrameProofs.
+Local Open Scope N_scope.
 Check c04_never_panics : forall m buf, frame_decode m buf <> DPanic.
 Check c04_outcomes : forall m buf,
   match frame_decode m buf with
@@ -25,8 +27,10 @@ Check c04_removed_prefix_is_a_frame : forall m buf,
   | Got _ _ | Bad _ => wf_frame m (firstn (announced m buf) buf)
   | _ => True
   end.
+Check c04_codec_is_stateless_like_the_model : state_tied = true.
 Print Assumptions c04_never_panics.
 Print Assumptions c04_outcomes.
 Print Assumptions c04_reads_only_the_frame.
 Print Assumptions c04_packet_layer_total.
 Print Assumptions c04_removed_prefix_is_a_frame.
+Print Assumptions c04_codec_is_stateless_like_the_model.
